@@ -15,7 +15,7 @@ variable {P : WParams} {vo : Nat → Nat} {ao : Nat → Nat → Nat}
 /-- a client state in which nothing has happened yet: threads at their start, variables empty, no request -/
 structure Initial (c : Client) : Prop where
   vars : ∀ v, getVar c v = {}
-  locks : ∀ lk, (lockSt c lk).agents = []
+  locks : ∀ lk, lockSt c lk = WLock.init
   thr : ∀ t, (getThread c t).pend = .start ∧ (getThread c t).phase = 0 ∧ (getThread c t).tmp = {} ∧
     (getThread c t).finished = false
 
@@ -28,16 +28,14 @@ theorem mkClient_initial (nlocks : Nat) (kinds : Array GKind) (progs : Array (Ar
   refine ⟨?_, ?_, ?_⟩
   · intro v; simp only [getVar, mkClient]; exact getD_replicate _ _ _
   · intro lk
-    have : lockSt (mkClient nlocks kinds progs) lk = WLock.init := by
-      simp only [lockSt, mkClient]; exact getD_replicate _ _ _
-    rw [this]; rfl
+    simp only [lockSt, mkClient]; exact getD_replicate _ _ _
   · intro t
     simp only [getThread, mkClient, Array.getD_eq_getD_getElem?, Array.getElem?_map]
     cases progs[t]? <;> simp
 
 theorem Inv.initial {c : Client} (hi : Initial c) (ao : Nat → Nat → Nat) : Inv vo ao c := by
   have hown : ∀ v, own c v = none := fun v => by simp [own, hi.vars v]
-  have hidle : ∀ lk a, agentLoc c lk a = .idle := fun lk a => by simp [agentLoc_eq, hi.locks lk]
+  have hidle : ∀ lk a, agentLoc c lk a = .idle := fun lk a => by simp [agentLoc_eq, hi.locks lk, WLock.init]
   refine ⟨?_, ?_, ?_, ?_, ?_, ?_, ?_, ?_⟩
   · intro v lk a h; rw [hown] at h; cases h
   · intro v _; exact hown v
